@@ -162,6 +162,10 @@ impl Ctx {
         let _ = std::fs::remove_dir_all(&scratch);
         std::fs::create_dir_all(&scratch)
             .unwrap_or_else(|e| machinery_failure(&format!("cannot create scratch dir: {e}")));
+        // Everything the code under test or testutils creates through `tempfile` lands in the
+        // scratch dir on tmpfs.
+        // SAFETY: single-threaded at this point (first statement of main).
+        unsafe { std::env::set_var("TMPDIR", &scratch) };
         let findings_path = Path::new(VERIF_ROOT).join("known_findings.json");
         let findings = match std::fs::read(&findings_path) {
             Ok(bytes) => {
